@@ -11,9 +11,13 @@ REFS = [
 def ref(self, target, depth, unit_risk_frame):
     set_history = depth < self.history
     if not hasattr(target, "risk"):
-        self._setup_risk(target, set_history)
+        target.risk = {}
+        if set_history:
+            target.risks = pd.DataFrame(index=target.data.index)
     if self.measure not in target.risk:
-        self._setup_measure(target, set_history)
+        target.risk[self.measure] = np.nan
+        if set_history:
+            target.risks[self.measure] = np.nan
     if isinstance(target, bt.core.SecurityBase):
         index = unit_risk_frame.index.get_loc(target.root.now)
         unit_risk = _get_unit_risk(target.name, unit_risk_frame, index)
@@ -125,8 +129,8 @@ def ref(security, data, index=None):
 
 def jacobian_agreement(chk):
     """C20.R2 writer/reader agreement: the Jacobian entry must be d(risk)/d(position) of the UpdateRisk formula."""
-    U = chk.summary(ALGOS, "UpdateRisk", "_set_risk_recursive", host="UpdateRisk", no_inline=("_set_risk_recursive", "_setup_risk", "_setup_measure"))
-    risk_store = [e for e in U.events if e.kind == "store" and e.base[0] == "fld" and e.base[2] == "risk"]
+    U = chk.summary(ALGOS, "UpdateRisk", "_set_risk_recursive", host="UpdateRisk", no_inline=("_set_risk_recursive",))
+    risk_store = [e for e in U.events if e.kind == "store" and sym.contains(e.base, lambda n: n[0] == "fld" and len(n) == 4 and n[2] == "risk") and canon(e.value) != canon(("nan",))]
     chk.need(risk_store, "UpdateRisk no longer stores the risk")
     v = risk_store[-1].value
     target = ("param", "target")
